@@ -165,6 +165,13 @@ import json, os, sys, time
 sys.path.insert(0, "/verif")
 cfg = json.loads(sys.argv[1])
 import requests
+from click.testing import CliRunner
+import ascmhl.commands as C
+v = ["-v"] if cfg.get("verbose") else []
+cmd = "info" if cfg["tool"] == "ascmhl" else "verify"
+argv = [cmd] + v + [cfg["dir"]]
+CliRunner().invoke(C.create, [cfg["dir"], "-h", "md5"])   # a sealed folder, so that the command succeeds and the result callback runs
+bare = CliRunner(mix_stderr=False).invoke(getattr(C, cmd), argv[1:])   # the command itself, outside the group: no update check
 from verif.harness.c20 import make_get
 calls = []
 inner = make_get(cfg["behaviour"], lambda: calls.append(1))
@@ -172,18 +179,11 @@ def get(url, *a, **k):
     time.sleep(cfg["latency_s"])
     return inner(url, *a, **k)
 requests.get = get
-t0 = time.time()
-from click.testing import CliRunner
-v = ["-v"] if cfg.get("verbose") else []
+# importing the CLI module starts the checker thread: the command is run right after it
 if cfg["tool"] == "ascmhl":
     from ascmhl.cli.ascmhl import mhltool_cli as cli
-    argv = ["info"] + v + [cfg["dir"]]
 else:
     from ascmhl.cli.ascmhl_debug import mhldebugtool_cli as cli
-    argv = ["verify"] + v + [cfg["dir"]]
-import ascmhl.commands as C
-CliRunner().invoke(C.create, [cfg["dir"], "-h", "md5"])   # a sealed folder, so that the command succeeds and the result callback runs
-bare = CliRunner(mix_stderr=False).invoke(getattr(C, argv[0]), argv[1:])   # the command itself, outside the group: no update check
 t0 = time.time()
 res = CliRunner(mix_stderr=False).invoke(cli, argv)
 t1 = time.time()
